@@ -1920,6 +1920,15 @@ impl Block {
                             }
 
                             cv.total_fees_atr = 0;
+
+                            // the rebroadcast transactions have changed, so has their hash
+                            cv.rebroadcast_hash = [0; 32];
+                            for rebroadcast_tx in &cv.rebroadcasts {
+                                let mut vbytes: Vec<u8> = vec![];
+                                vbytes.extend(&cv.rebroadcast_hash);
+                                vbytes.extend(&rebroadcast_tx.serialize_for_signature());
+                                cv.rebroadcast_hash = hash(&vbytes);
+                            }
                         }
                     } else {
                         error!(
